@@ -5,6 +5,15 @@ import json, subprocess, os
 V = os.path.dirname(os.path.dirname(os.path.abspath(__file__)))
 
 claimed = {
+ "C14": dict(tech="constant propagation through the string functions with pure library models (strings/utf8 folded on constants) compared with a rune-based reference model; byte-indexing inventory; bounds obligations",
+    text="length, upper, lower, startsWith, endsWith, contains, indexOf, substring and replace are evaluated from source on a pool of 9 strings mixing 1- to 4-byte code points with all short patterns and boundary positions and compared with a character-based reference; no byte-indexed operation remains in the 13 string functions; out-of-range positions cannot crash.",
+    note="Not decided: strings outside the pool (functions are loop-free compositions of library calls, trusted on other strings), toChars/matches/replaceMatches values.", ref="§3-C14"),
+ "C09": dict(tech="dimension rule on time.Duration arithmetic, layout/time-value provenance of constructed temporal values (who-may-produce table), SCCP with the quantity unit pinned",
+    text="Structural necessary conditions of the arithmetic for all paths: truncation helpers multiply the unit back; Add/Sub results carry the receiver's layout; the time value of every constructed Date/DateTime/Time derives from layout parsing or AddDate/Add/addMonth/addYear on such a value and no absolute-time rounding or zone-dependent constructor is used; non-temporal units are errors on every path, singular/plural keywords are equivalent; Quantity Add/Sub/Less report a mismatch exactly for different units.",
+    note="Not decided: equality of sums with a calendar reference model (run-time values inside package time), clamping values, monotonicity, Time wrap-around.", ref="§3-C09"),
+ "C15": dict(tech="constant propagation through ParseString / extractTimezone / narrowing helpers (regexp, fmt, strconv folded on constants; all generic instantiations built through an in-memory overlay), writer/reader layout-table agreement, SCCP of the precision mappings, float-detour inventory",
+    text="String-literal escapes are decoded correctly on all sequences of up to 3 tokens over every escape; UTC offsets render as ±hh:mm for every quarter-hour offset; each fhirconv renderer layout is a parser row of the same precision; System parsers and precision maps agree; FromProto/ToProto precision mappings are mutually inverse; narrow.ToInteger (121 instantiations) and fhirconv.ToInteger (33) succeed exactly for representable values on the boundary pool on amd64 and 386; no Decimal conversion goes through float64.",
+    note="Not decided: round trips of temporal texts through package time (incl. hidden fraction digits), agreement with the jsonformat marshaller, Decimal/Quantity literal texts.", ref="§3-C15"),
  "C10": dict(tech="SCCP on symbolic collections (positional algebra), value provenance of appended items, dropped-error dataflow, loop-verdict placement",
     text="first/last/tail/skip/take and the indexer are evaluated from source on symbolic collections of 0..4 items for boundary n and compared with the positional specification; exists/empty/count, the where/all criterion handling, the provenance of filtered items and the absence of null items are decided for all paths.",
     note="Not decided: equality-based membership of distinct/exclude/intersect on run-time values. Known finding (test-pinned): exclude() appends the argument's extra items.", ref="§3-C10"),
